@@ -1396,6 +1396,46 @@ def eq_soundness(col):
             col.fail("equal-messages-compare-unequal", how, f"a == copy: {r[0]}, a != copy: {r[1]}")
 
 
+def json_names_vs_protoc(col):
+    """C05: the key to_dict / to_json writes for a field (default casing) is the JSON name protoc assigns to the field
+    (taken from the reference descriptor, json_name), and that key is read back; per class of proto field name"""
+    import re as _re
+    from google.protobuf import descriptor_pb2 as dpb, descriptor_pool
+    from betterproto.compile.naming import pythonize_field_name
+    plain = ["a", "foo", "foo_bar", "address_line_1", "ipv4_address", "http2_frame", "int32_value", "utf8", "level3", "h264_profile", "x_y_z",
+             "very_long_name_with_many_words", "id", "user_id2", "a_1_b"]
+    digit_letter = ["u64s", "sha256sum", "x2y", "a1b2", "v1beta", "ipv4addr", "base64data"]
+    upper = ["camelCase", "HTTPCode", "Name", "userID", "XMLHttpRequest", "URL"]
+    underscores = ["_foo", "foo_", "foo__bar", "_", "__x", "a_"]
+    names = [(n, "lower-snake") for n in plain] + [(n, "digit-then-lower-case-letter") for n in digit_letter] + \
+            [(n, "upper-case-letters") for n in upper] + [(n, "leading-trailing-or-double-underscore") for n in underscores]
+    fdp = dpb.FileDescriptorProto(name="standin_jsonnames.proto", package="standin_jsonnames", syntax="proto3")
+    for i, (n, _) in enumerate(names):          # one message per name: protoc refuses two fields with one JSON name
+        mp = fdp.message_type.add(name="Names%d" % i)
+        mp.field.add(name=n, number=i + 1, type=dpb.FieldDescriptorProto.TYPE_INT32, label=dpb.FieldDescriptorProto.LABEL_OPTIONAL)
+    pool = descriptor_pool.DescriptorPool()
+    pool.Add(fdp)
+    for i, (n, klass) in enumerate(names):
+        how = f"proto field `{n}`"
+        col.cases += 1
+        col.distinct.add(how)
+        want = pool.FindMessageTypeByName("standin_jsonnames.Names%d" % i).fields_by_name[n].json_name
+        py = guard(col, "pythonize_field_name", how, lambda: pythonize_field_name(n))
+        if py is None:
+            continue
+        cls = dataclass(eq=False, repr=False)(type("N%d" % i, (betterproto.Message,), {"__annotations__": {py: int}, py: betterproto.int32_field(i + 1)}))
+        d = guard(col, "to_dict", how, lambda: cls(**{py: 7}).to_dict())
+        if d is None:
+            continue
+        key = list(d)[0] if len(d) == 1 else None
+        if key != want:
+            col.fail("json-name-differs-from-protoc:" + klass, how, f"python field `{py}`, to_dict key {key!r}, protoc json_name {want!r}")
+        for k2 in {want, n}:
+            back = guard(col, "from_dict", how, lambda: cls().from_dict({k2: 7}))
+            if back is not None and getattr(back, py) != 7:
+                col.fail("reference-json-name-not-read-back:" + klass, how, f"from_dict({{{k2!r}: 7}}) left `{py}` at {getattr(back, py)!r}")
+
+
 def failing_observers(col):
     """C14 for observers that RAISE: a chain nested deeper than the interpreter's stack makes the recursive observers fail
     (RecursionError); a failed observation is still an observation - what the operands later compare equal to, encode to
@@ -2075,6 +2115,8 @@ def main(argv=None):
             extra(col, "declaration_styles", lambda: declaration_styles(col))
         if a.prop in ("C07", "C14"):
             extra(col, "copy_histories", lambda: copy_histories(col))
+        if a.prop == "C05":
+            extra(col, "json_names_vs_protoc", lambda: json_names_vs_protoc(col))
         if a.prop in ("C01", "C14"):
             extra(col, "eq_soundness", lambda: eq_soundness(col))
         if a.prop == "C14":
